@@ -246,7 +246,11 @@ fn run_poly(cx: &mut Cx, spec: &PathSpec, k: usize, origin: &str, to_coq: bool) 
     // area: sum of triangle areas = area of the filled region (computed from the signed areas is only
     // possible for simple regions; here: triangles do not overlap (checked above) and cover exactly)
     // the overlap run (C02) is costlier per case: a third of the subset
-    if to_coq && !(cx.overlap && k % 3 != 0) {
+    let small_enough = out.tris.len() <= if cx.overlap { 12 } else { 40 };
+    if to_coq && !small_enough {
+        cx.st.inc("too_large_for_verified_checker_budget");
+    }
+    if to_coq && small_enough && !(cx.overlap && k % 3 != 0) {
         cx.st.sample(format!("{} -> {} triangles", label, out.tris.len()));
         writeln!(cx.idx, "{}\t{}", cx.id, label).ok();
         let edges32 = outline_edges_f32(spec, 0.01);
